@@ -104,7 +104,7 @@ func (s *syncer) finish(kind string, out *outcome) {
 
 func syncPart(t *testing.T, run *ev.Run) {
 	type srcSpec struct{ blocks, interval, mtb int }
-	specs := []srcSpec{{44, 4, 10}, {40, 6, 6}, {48, 5, 8}}
+	specs := []srcSpec{{44, 4, 10}, {40, 6, 6}, {70, 5, 8}}
 	if ev.Tier() == "thorough" {
 		specs = []srcSpec{{60, 4, 10}, {56, 6, 6}, {64, 5, 8}, {60, 7, 12}, {50, 8, 5}, {70, 3, 10}, {90, 9, 20}, {66, 4, 6}, {58, 6, 9}, {80, 10, 7}}
 	}
